@@ -395,6 +395,14 @@ def monitor_retrycmd(c):
     r = seen_mismatch(c, items, "re-", whos=("env",))
     if r:
         return ("the retried steps do not see the parameters of the run they repeat (recorded %r): %s" % (c.get("recorded"), r), cls1)
+    if c.get("envdiff"):
+        # env: RUNDIR: dir-${C11VAR} - the recorded run saw dir-alpha; the retry loads the file where it is dir-beta
+        pr = c.get("probes") or {}
+        v1 = unb64(((pr.get("first") or {}).get("env") or {}).get("RUNDIR"))
+        v2 = unb64(((pr.get("re-env") or {}).get("env") or {}).get("RUNDIR"))
+        if v1 != b"dir-alpha" or v2 != v1:
+            return ("an env: entry whose value differs when the retry loads the DAG file: the kept steps of the recorded run saw RUNDIR = %r, "
+                    "the re-executed step sees %r (in its process environment)" % (v1, v2), cls1)
     return None
 
 
@@ -535,7 +543,7 @@ def model_check(ctx, cases):
 # ---- shrinking ------------------------------------------------------------------------------------------------
 def candidates(c):
     out = []
-    base = {k: c[k] for k in ("stream", "gen") if k in c}
+    base = {k: c[k] for k in ("stream", "gen", "envdiff") if k in c}
     if c["stream"] == "parse":
         s = c["s"]
         for i in range(len(s)):
